@@ -50,6 +50,9 @@ def run_one(s):
             r = do.jac(torch.cat(comps, dim=1), *vars_)
         elif op == "convective":
             r = do.convective(torch.cat(comps, dim=1), torch.cat([poly(a) for a in aux], dim=1), *vars_)
+        elif op in ("conv_grad", "conv_lap"):          # a second operator applied to the result of convective()
+            cv = do.convective(torch.cat(comps, dim=1), torch.cat([poly(a) for a in aux], dim=1), *vars_)
+            r = (do.grad if op == "conv_grad" else do.laplacian)(cv[:, :1], *vars_)
         elif op == "sym_grad2":
             r = 2.0 * do.sym_grad(torch.cat(comps, dim=1), *vars_)
         elif op == "matrix_div":
